@@ -404,6 +404,21 @@ def meta_key(m):
             tuple(sorted((k, _eqnorm(v)) for k, v in m.loss_details.items())))
 
 
+def fresh_str(x):
+    """An equal but distinct str object (built at run time; CPython shares only literals / 0-1 char strings)."""
+    return "".join(list(x)) if isinstance(x, str) else x
+
+
+def fresh_meta(m):
+    from bermuda import Metadata
+
+    return Metadata(risk_basis=fresh_str(m.risk_basis), country=fresh_str(m.country), currency=fresh_str(m.currency),
+                    reinsurance_basis=fresh_str(m.reinsurance_basis), loss_definition=fresh_str(m.loss_definition),
+                    per_occurrence_limit=m.per_occurrence_limit,
+                    details={fresh_str(k): fresh_str(v) for k, v in m.details.items()},
+                    loss_details={fresh_str(k): fresh_str(v) for k, v in m.loss_details.items()})
+
+
 def respell(m, extra=None):
     """(m1, m2): two EQUAL Metadata objects spelled differently -- detail keys inserted in opposite
     order and an integral number once as int, once as float."""
@@ -566,6 +581,20 @@ class SummGen(Gen):
             if RATIO[k][0] not in fs and r.random() < 0.93:
                 fs.append(RATIO[k][0])
         return fs
+
+    def metas(self, n_slices, slice_diff=None):
+        """As Gen.metas, but every Metadata gets its OWN string objects (equal, never identical: as if parsed from
+        JSON / CSV or produced by code.strip().upper()); sometimes one slice has risk_basis=None."""
+        ms, sd = super().metas(n_slices, slice_diff)
+        if sd == "risk_basis" and len(ms) >= 2 and self.r.random() < 0.5:
+            from bermuda import Metadata
+
+            m = ms[self.r.randrange(len(ms))]
+            none_rb = Metadata(risk_basis=None, country=m.country, currency=m.currency, reinsurance_basis=m.reinsurance_basis,
+                               loss_definition=m.loss_definition, per_occurrence_limit=m.per_occurrence_limit,
+                               details=dict(m.details), loss_details=dict(m.loss_details))
+            ms = [x for x in ms if x is not m] + [none_rb]
+        return [fresh_meta(m) for m in ms], sd
 
     def metas_ext(self, n_slices, slice_diff=None):
         from bermuda import Metadata
